@@ -166,6 +166,9 @@ Proof.
   apply andb_prop in H. destruct H as [H1 H2]. split; [now apply N.ltb_lt|auto].
 Qed.
 
+Lemma sr_wf_init : sr_wf init_ser.
+Proof. unfold sr_wf, init_ser. cbn. repeat split; intros; try discriminate; contradiction. Qed.
+
 Example log_wf_example :
   forall x, In x [1; 2; 3] ->
     let n := node_of x g3 in
@@ -176,9 +179,8 @@ Proof.
               sr (node_of x g3) = init_ser /\ log (node_of x g3) <> []).
   { destruct Hx as [<-|[<-|[<-|[]]]]; vm_compute; repeat split; discriminate. }
   destruct H as (H1 & H2 & H3 & H4). split; [|split; [exact H4|]].
-  - split; [now apply consecb_ok|]. split; [now apply ssortedb_ok|]. rewrite H3.
-    cbn. repeat split; intros; try discriminate; contradiction.
-  - intros Hp. rewrite H3 in Hp. discriminate.
+  - split; [now apply consecb_ok|]. split; [now apply ssortedb_ok|]. rewrite H3. exact sr_wf_init.
+  - intros Hp. rewrite H3 in Hp. discriminate Hp.
 Qed.
 
 Example msg_wf_example : forall m, In m (chan_get 1 2 g3) -> msg_wf m.
